@@ -206,7 +206,7 @@ def one(case, pl):
         """the rmax ARGUMENT in the numeric type the case asks for (always equal in value to the float64 maximum)"""
         import numpy as np
         t = view.get("rmax_type")
-        f = Fraction(view["rmax"])
+        f = Fraction(view.get("rmax_arg", view["rmax"]))      # rmax_arg: deliberately NOT the maximum reward
         if t == "float32":
             return np.float32(float(f))
         if t == "float64":
